@@ -57,6 +57,9 @@ impl Writer {
             forall|x: u32| #![trigger done.contains(x)] !(done.contains(x) && to_insert@.contains(x)),
             forall|id: u32| ins0.contains(id) ==> v0.contains_key(ikey(i, id)),
             forall|k: int| 0 <= k < rs.len() ==> ins0.disjoint(titems(m0, tn(#[trigger] rs[k]))),
+        // C14: every pass strictly shrinks the set of ids still to insert (ImmutableLeafs::new selects at least one id): the batching loop
+        // ends after at most |to_insert| passes, whatever the memory hint (assuming the calls it makes return)
+        decreases to_insert@.len(),
 //@loopstart 0
             let ghost va = wtxn.view(); let ghost ma = tmap(va, i); let ghost pend = to_insert@; let ghost lg0 = large_descendants@;
             proof {
@@ -78,6 +81,9 @@ impl Writer {
                 assert(snap_ok(s, ma, rs)) by {
                     if rs.len() == 1 {
                         lemma_nodes_exist(ma, tn(rs[0]));
+                        assert forall|id: u32| #[trigger] tnodes(ma, tn(rs[0])).contains(id) implies s.contains_key(id) && s[id] == ma[id] by {
+                            assert(s.contains_key(id) <==> tnodes(ma, tn(rs[0])).contains(id));
+                        }
                         lemma_frame(ma, s, tn(rs[0]));
                         assert forall|k: int| 0 <= k < rs.len() implies tree(s, tn(#[trigger] rs[k])) by { assert(k == 0); }
                     } else {
